@@ -336,22 +336,123 @@ def split_goal(g, limit=12):
     return [g]
 
 
+_sym_cache = {}
+
+
+def symbols(e):
+    """names of the uninterpreted constants / functions of a term (cached per AST node)"""
+    key = e.get_id()
+    hit = _sym_cache.get(key)
+    if hit is not None and hit[0].eq(e):
+        return hit[1]
+    out = set()
+    todo = [e]
+    seen = set()
+    while todo:
+        x = todo.pop()
+        i = x.get_id()
+        if i in seen:
+            continue
+        seen.add(i)
+        if z3.is_quantifier(x):
+            todo.append(x.body())
+            continue
+        if z3.is_app(x):
+            d = x.decl()
+            if d.kind() == z3.Z3_OP_UNINTERPRETED:
+                out.add(d.name())
+            todo.extend(x.children())
+    _sym_cache[key] = (e, out)
+    return out
+
+
+def cone(pc, goal, depth):
+    """hypotheses within `depth` symbol-sharing steps of the goal.  Proving from a SUBSET of the hypotheses is sound;
+    a `sat` answer on a subset is not a counter-model and is never reported."""
+    want = set(symbols(goal))
+    chosen = [False] * len(pc)
+    ps = [symbols(p) for p in pc]
+    for _ in range(depth):
+        new = set()
+        for i, s in enumerate(ps):
+            if not chosen[i] and (s & want or not s):
+                chosen[i] = True
+                new |= s
+        if not new - want:
+            break
+        want |= new
+    return [p for p, c in zip(pc, chosen) if c]
+
+
+_size_cache = {}
+
+
+def term_size(e, cap=5000):
+    """(number of distinct AST nodes up to cap, has quantifier or uninterpreted function application)"""
+    key = e.get_id()
+    hit = _size_cache.get(key)
+    if hit is not None and hit[0].eq(e):
+        return hit[1]
+    n = 0
+    heavy = False
+    todo = [e]
+    seen = set()
+    while todo and n < cap:
+        x = todo.pop()
+        i = x.get_id()
+        if i in seen:
+            continue
+        seen.add(i)
+        n += 1
+        if z3.is_quantifier(x):
+            heavy = True
+            todo.append(x.body())
+        elif z3.is_app(x):
+            if x.num_args() and x.decl().kind() == z3.Z3_OP_UNINTERPRETED:
+                heavy = True
+            todo.extend(x.children())
+    _size_cache[key] = (e, (n, heavy))
+    return n, heavy
+
+
+def _run(strat, pc, goal, ms, seed):
+    s = _solver(strat)
+    s.set('timeout', max(500, int(ms)))
+    if seed:
+        s.set('random_seed', seed)
+    s.add(*pc)
+    s.add(z3.Not(goal))
+    t0 = time.time()
+    r = s.check()
+    return r, time.time() - t0, s
+
+
 def check(pc, goal, timeout_ms):
-    """is /\\ pc => goal valid?  ('unsat'|'sat'|'unknown', seconds, model, reason)"""
+    """is /\\ pc => goal valid?  ('unsat'|'sat'|'unknown', seconds, model, reason)
+
+    Hypothesis ladder first (proving from a SUBSET of the hypotheses is sound; `sat` on a subset is never reported):
+      L1  the light hypotheses (small, quantifier-free, no uninterpreted function)
+      L2  L1 + the heavier hypotheses that share a symbol with the goal
+    then all hypotheses with the strategy portfolio."""
     seed = int(os.environ.get('VERIF_SEED', '0') or 0)
     total = 0.0
+    sizes = [term_size(p) for p in pc]
+    light = [p for p, (n, h) in zip(pc, sizes) if n <= 80 and not h]
+    gs = symbols(goal)
+    near = [p for p, (n, h) in zip(pc, sizes) if (n <= 80 and not h) or (n <= 1500 and symbols(p) & gs)]
+    tried = set()
+    for name, sub in (('light', light), ('near', near)):
+        if len(sub) == len(pc) or len(sub) in tried:
+            continue
+        tried.add(len(sub))
+        r, dt, s = _run('simp', sub, goal, min(4000, timeout_ms * 0.08), seed)
+        total += dt
+        if r == z3.unsat:
+            return 'unsat', total, None, '%s:%d/%d' % (name, len(sub), len(pc))
     reasons = []
     tot_share = sum(SHARES.get(x, 0.3) for x in STRATEGIES)
     for strat in STRATEGIES:
-        s = _solver(strat)
-        s.set('timeout', max(1000, int(timeout_ms * SHARES.get(strat, 0.3) / tot_share)))
-        if seed:
-            s.set('random_seed', seed)
-        s.add(*pc)
-        s.add(z3.Not(goal))
-        t0 = time.time()
-        r = s.check()
-        dt = time.time() - t0
+        r, dt, s = _run(strat, pc, goal, timeout_ms * SHARES.get(strat, 0.3) / tot_share, seed)
         total += dt
         if r == z3.unsat:
             return 'unsat', total, None, strat
